@@ -24,7 +24,6 @@ ASSUMPTIONS = [
     "the column names present in a step's data are observed from the generated group's calculate_feature result and "
     "passed to the model (what the planner puts on a compute framework is not modelled here)",
     "iteration order of the `_selected_feature_names` set (ordering=None) is not modelled; results compared as sets",
-    "global-filter worlds run on PyArrow / PythonDict only (PandasFilterEngine fails on every filter: C11 finding)",
     "filters are placed on root-group columns only (a filter on a derived feature can leave it without its inputs)",
     "table order of get_results() is not part of the property; tables are compared as multisets",
 ]
@@ -374,7 +373,7 @@ def gen_world(rng: Any, wid: int) -> Dict[str, Any]:
         groups.append({"kind": "derived", "derived": {s: {"parents": [xa, yb], "expr": ["add", ["col", xa], ["col", yb]]}}, "multi": {}})
         links.append([0, ka, 1, kb])
     filters: List[List[Any]] = []
-    if fw != "pd" and rng.random() < 0.45:
+    if rng.random() < 0.45:
         rootcols = [c for g in groups if g["kind"] == "root" for c in g["data"] if c not in g["multi"]]
         for c in rng.sample(rootcols, rng.randint(1, min(2, len(rootcols)))):
             filters.append([c, "min", {"value": 0}])
